@@ -20,7 +20,7 @@ RULE = ('case = arrangement program over 2-3 applications (optionally one of the
         'operation show the own request of that application (environ identity, path, query string, cookie; response headers / cookies written before are still '
         'there); every response (outer, inner, plain, threaded) == the response of the same request on a fresh stand-alone application. The known defect K10 '
         '(ts_props store shared per class) is excluded by construction: the whole search runs with a harness-side shim that gives the generated properties '
-        'per-instance stores (vlib/shim.py); three pinned witnesses (nested call, copy(), construction while serving) run WITHOUT the shim. Additionally EVERY ordered pair of request kinds is served first on application A (stock or custom configuration), then on B, then on A. Non-trivial = at '
+        'per-instance stores (vlib/shim.py); three pinned witnesses (nested call, copy(), construction while serving) run WITHOUT the shim. Additionally EVERY ordered pair of request kinds is served first on application A (stock, own errors_map, or virtual-host configuration with domain_map / app_name_header), then on B, then on A, with different and with identical request data. Non-trivial = at '
         'least one foreign operation or a threaded part, or a kind pair across two applications; distinct by case hash.')
 ASSUMPTIONS = ['search runs under the K10 shim (stated exclusion); witnesses run on the unmodified classes', 'nested calls on the SAME application (re-entrancy) are not part of the property',
                'reference responses come from stand-alone applications with their own error objects']
@@ -34,7 +34,12 @@ _custom_errors = S.custom_errors
 def solo(kind, n, cfg='default'):
     key = (kind, n, cfg)
     if key not in _SOLO:
-        app = S.make_app(private_errors=True) if cfg == 'default' else S.make_app(config={'errors_map': _custom_errors()})
+        if cfg == 'default':
+            app = S.make_app(private_errors=True)
+        elif cfg == 'domain':
+            app = S.make_app(config=S.domain_config(), private_errors=True)
+        else:
+            app = S.make_app(config={'errors_map': _custom_errors()})
         r = call_app(app, S.make_env(kind, n))
         if r.escaped is not None:
             raise CheckFailure(f'solo request {key} raised {fmt_exc(r.escaped)}')
@@ -79,7 +84,7 @@ def case_st(draw):
         threads = {'reqs': [[i, draw(KIND), draw(st.integers(0, 30))], [j, draw(KIND), draw(st.integers(0, 30))]],
                    'schedule': draw(st.lists(st.tuples(st.integers(0, 1), st.integers(1, 200)).map(list), min_size=1, max_size=12))}
     return {'napps': napps, 'default': draw(st.sampled_from([-1, -1, 0, 1])), 'steps': steps, 'threads': threads,
-            'cfg': draw(st.lists(st.sampled_from(['default', 'default', 'custom']), min_size=napps, max_size=napps))}
+            'cfg': draw(st.lists(st.sampled_from(['default', 'default', 'custom', 'domain']), min_size=napps, max_size=napps))}
 
 
 class World:
@@ -95,7 +100,7 @@ class World:
             existing = ombott.app if case['default'] == i else None
             # 'default': the stock configuration (its error objects are the process-wide ones every default-config application shares);
             # 'custom': an application configured with its own errors_map
-            config = {'errors_map': _custom_errors()} if self.cfg[i] == 'custom' else None
+            config = {'errors_map': _custom_errors()} if self.cfg[i] == 'custom' else (S.domain_config() if self.cfg[i] == 'domain' else None)
             self.apps.append(S.make_app(probe=self._probe_for(i), config=config, app=existing, foreign=self.foreign[i]))
         self.nforeign = 0
         self.undo = []          # listeners are removed at the end of the case (the default app outlives it)
@@ -313,16 +318,20 @@ def run(ctx):
         pairs = [(a, b) for a in kinds for b in kinds]
         # the references of this grid come from fresh interpreter processes, one request each
         from vlib import fresh
-        got = fresh.references([(k, n, cfg, False) for k in kinds for n in (5, 6, 7) for cfg in ('default', 'custom')])
+        got = fresh.references([(k, n, cfg, False) for k in kinds for n in (5, 6, 7) for cfg in ('default', 'custom', 'domain')])
         for (k, n, cfg, _), v in got.items():
             if v[0] == 'escaped':
                 raise CheckFailure(f'reference request {k, n, cfg} raised {v[1]}')
             _SOLO[(k, n, cfg)] = v
         ctx.count('references_from_fresh_processes', len(got))
         for a, b in pairs[ctx.shard::max(1, ctx.nshards)]:
-            for cfg in (['default', 'default'], ['custom', 'default']):
+            for cfg in (['default', 'default'], ['custom', 'default'], ['domain', 'default']):
                 ctx.guarded(check_pair, {'napps': 2, 'default': -1, 'threads': None, 'cfg': cfg,
                                          'steps': [{'app': 0, 'kind': a, 'n': 5, 'acts': []}, {'app': 1, 'kind': b, 'n': 6, 'acts': []}, {'app': 0, 'kind': b, 'n': 7, 'acts': []}]})
+            # the same request data on differently configured applications (what one computed must not be handed to the other)
+            for cfg in (['domain', 'default'], ['default', 'domain']):
+                ctx.guarded(check_pair, {'napps': 2, 'default': -1, 'threads': None, 'cfg': cfg,
+                                         'steps': [{'app': 0, 'kind': a, 'n': 5, 'acts': []}, {'app': 1, 'kind': b, 'n': 5, 'acts': []}, {'app': 0, 'kind': b, 'n': 5, 'acts': []}]})
         ctx.count('exhaustive_ordered_kind_pairs_across_two_apps', len(pairs))
     ctx.note('search runs under vlib/shim.py (per-instance ts_props stores): exclusion by construction of open finding K10; witnesses run without it')
     n = 600 if ctx.tier == 'quick' else 8000
